@@ -8,6 +8,7 @@ from vlib import gen
 
 ID = "C01"
 LEAN_TARGETS = ["ZmqVerif.Props.C01"]
+ESCALATE_ROUNDS = 2  # extra seeded rounds of the random families when /repo differs from the validated baseline
 RULE = (
     "corpus, then EXHAUSTIVE frame-length grids crossed for 1..3 frames (contents generated from (len,seed)), "
     "then seeded random messages (1..6 frames, log-uniform lengths), READY for 9 socket types x 6 identity "
